@@ -882,3 +882,8 @@ func replayChan(c *vf.Ctx, st *vf.Stepper, r *sigBehaviour, free *rand.Rand) boo
 	}
 	return match || free != nil
 }
+
+func init() {
+	All["C19"] = C19
+	SpecModules = append(SpecModules, "Signal", "Chan")
+}
